@@ -380,6 +380,9 @@ def main (args : List String) : IO Unit := do
       | "retromate" => runG seed (retroMateOps (n 0 20) ((rest.drop 1).map fun a => a.replace "_" " "))
       | "rep" => runG seed (repOps (n 0 20) (n 1 30) (n 2 4) ((rest.drop 3).map fun a => a.replace "_" " "))
       | "cap" => runG seed (capOps (n 0 50) (n 1 30) (n 2 6))
+      | "heavy" => runG seed (heavyOps (n 0 10) ((rest.drop 1).map fun a => a.replace "_" " "))
+      | "dense" => runG seed (denseOps (n 0 10) (n 1 6) ((rest.drop 2).map fun a => a.replace "_" " "))
+      | "fewmoves" => runG seed (fewMovesOps (n 0 10) (n 1 1) (n 2 60) ((rest.drop 3).map fun a => a.replace "_" " "))
       | _ => []
     let hout ← IO.getStdout
     for l in lines do hout.putStrLn l
